@@ -217,7 +217,7 @@ func (p *pod) EvalKey(key string) interface{} {
 	case resmgr.KeyNamespace:
 		return p.GetNamespace()
 	case resmgr.KeyQOSClass:
-		return p.GetQOSClass()
+		return string(p.GetQOSClass())
 	case resmgr.KeyLabels:
 		return p.Pod.GetLabels()
 	case resmgr.KeyID:
